@@ -505,9 +505,9 @@ func (e *Env) applyCore(op *Op) []string {
 			return []string{"resign-build-failed"}
 		}
 		if err := e.f.AddObject(inp, sif.OptAddDeterministic()); err != nil {
-			return []string{"res " + errClass(err)}
+			return []string{"res " + errClass(err), "spec ok"}
 		}
-		return []string{"res ok"}
+		return []string{"res ok", "spec ok"}
 	case "patch":
 		if e.f == nil {
 			return []string{"noimg"}
@@ -596,7 +596,9 @@ func (e *Env) applyCore(op *Op) []string {
 	if err == nil {
 		op.Now = e.f.ModifiedAt().Unix()
 	}
-	return []string{"res " + errClass(err)}
+	// "spec ok": the Lean driver checks on its side that the model's step is the abstract reference
+	// model's step (Model/Spec.lean) and prints the same constant when it is
+	return []string{"res " + errClass(err), "spec ok"}
 }
 
 func readAll(r io.Reader) []byte {
